@@ -406,6 +406,28 @@ def gen_c18(tier, rng):
                         if o.startswith("dec d feed") and frame_ep(o.split(" ")[3]) == e:
                             ops.append(o.replace("dec d feed", "dec q%d feed" % i))
                 cases.append(Case("c18d", ops, nontrivial=True, tags=("directed", tag.rstrip("0123456789")), meta={"nfull": len(full), "eps": eps}))
+    # the same for STATUS, CONTROL and VENDOR frames (message types 3, 2, 0xFF) and for mixed types: two streams of ONE device, one in the
+    # middle of a reassembly, frames of the other stream in between (an endpoint key that ignores the stream id for some message types
+    # merges them)
+    for vmt in (1, 3, 2, 0xFF):
+        for omt in (1, 3, 2):
+            for a, o in (((5, 7), (5, 0)), ((5, 0), (5, 7)), ((0x0102, 1), (0x0102, 2))):
+                body = [proto.rand_bytes(rng, 20) for _ in range(3)]
+                segs = [frame_header(1, a[0], vmt, a[1], 100 + k) + message(5, 6, sg, 0x05, body[k]) for k, sg in enumerate((0x04, 0x08, 0x0C))]
+                intr = [feed(frame_header(1, o[0], omt, o[1], 7) + message(1, 2, 0, 0x05, b"\x01\x02")),
+                        feed(frame_header(1, o[0], omt, o[1], 8) + message(1, 2, 0x04, 0x05, b"\x03\x04")),
+                        feed(frame_header(1, o[0], omt, o[1], 9))]
+                for op in intr:
+                    for where in (1, 2):
+                        full = [feed(f) for f in segs]
+                        full.insert(where, op)
+                        eps = sorted({frame_ep(x.split(" ")[3]) for x in full if x.startswith("dec d feed")} - {None})
+                        ops = list(full)
+                        for i, e in enumerate(eps):
+                            for x in full:
+                                if x.startswith("dec d feed") and frame_ep(x.split(" ")[3]) == e:
+                                    ops.append(x.replace("dec d feed", "dec q%d feed" % i))
+                        cases.append(Case("c18d", ops, nontrivial=True, tags=("directed", "same-device-other-stream-mt%d-%d" % (vmt, omt)), meta={"nfull": len(full), "eps": eps}))
     return cases
 
 
@@ -457,8 +479,14 @@ def gen_c06(tier, rng):
         mx = rng.choice([25, 30, 40, 64, 100])
         npk = rng.randrange(1, 6)
         pkts = []
+        many = ci % 50 == 7            # every 50th stream carries one message of more than 256 segments
+        if many:
+            mx = rng.choice([25, 26])
+            npk = rng.randrange(1, 3)
         for i in range(npk):
             ln = rng.choice([1, 5, mx - 24, mx - 23, 2 * (mx - 24), 3 * (mx - 24) + 1, rng.randrange(1, 4 * mx)])
+            if many and i == 0:
+                ln = (mx - 24) * rng.choice([257, 258, 300, 513])
             pkts.append(gen_enc.gpkt(ln, rng.randrange(251), ty=rng.choice([0x01FF, 0x0104, 0x0105, 0x0304, 0x03FF]), ts=rng.getrandbits(40),
                                      ifid=rng.getrandbits(32), vend=rng.getrandbits(16), flags=rng.getrandbits(8) & 0xB3, ver=3))
         # some packets get their payload REPLACED IN PLACE (through getPayload()) after they were built, with another length: the stream
